@@ -3,13 +3,13 @@ PROP = dict(
     id="C15",
     module="FV.C15.Props",
     coq_targets=["theories/C15/Props.vo"],
-    theorems=['depth_sort_terminates_on_any_graph', 'depth_sort_never_returns_cyclic_glyph', 'collect_nested_terminates_on_any_graph', 'limits_terminates_on_any_graph', 'limits_ok_on_acyclic', 'reach_terminates_on_acyclic', 'reach_diverges_on_cycle_refuted', 'resolve_terminates_on_acyclic', 'resolve_livelock_on_cycle_refuted', 'convert_terminates_on_acyclic', 'convert_diverges_on_cycle_refuted', 'flatten_terminates_on_acyclic', 'flatten_diverges_on_cycle_refuted', 'bbox_terminates_on_acyclic', 'bbox_diverges_on_cycle_refuted', 'bbox_recursion_depth_unbounded_refuted', 'acyclic_is_no_cycle', 'cycle_check_rejects_exactly_cycles', 'cycle_rejected_before_walks', 'fixed_compile_never_diverges', 'repair_transparent_without_cycle', 'unfixed_compile_diverges_refuted'],
+    theorems=['depth_sort_terminates_on_any_graph', 'depth_sort_never_returns_cyclic_glyph', 'collect_nested_terminates_on_any_graph', 'limits_terminates_on_any_graph', 'limits_ok_on_acyclic', 'reach_terminates_on_acyclic', 'reach_diverges_on_cycle_refuted', 'resolve_terminates_on_acyclic', 'resolve_livelock_on_cycle_refuted', 'convert_terminates_on_acyclic', 'convert_diverges_on_cycle_refuted', 'flatten_terminates_on_acyclic', 'flatten_diverges_on_cycle_refuted', 'bbox_terminates_on_acyclic', 'bbox_diverges_on_cycle_refuted', 'recursive_bbox_depth_unbounded_refuted', 'acyclic_is_no_cycle', 'cycle_check_rejects_exactly_cycles', 'cycle_rejected_before_walks', 'fixed_compile_never_diverges', 'repair_transparent_without_cycle', 'unfixed_compile_diverges_refuted'],
     prelude="Require Import FV.C15.Model.\nFrom Coq Require Import List Arith ZArith Bool.\nImport ListNotations.",
     harness_args=lambda tier, seed: ["--seed", str(seed), "--n", str(N[tier])],
     shard=60,
     rule="the real fontc CLI (rebuilt from /repo on every run) is run as a subprocess under ulimits (6 CPU-s, 4 GB, 300 s wall) on: "
          "(D) a fixed corpus: 15 component graphs (2-cycle, self-loop, 3-cycle, mixed / non-export cycle members, zero and non-zero "
-         "net translation, flatten / decompose / prefer-simple flags, missing component), acyclic component chains of 300 / 1500 glyphs (recursion depth), 8 text mutants of real .glyphs sources with component cycles, 3 FEA include graphs (self include, 2-cycle, chain of 60) and 6 inputs known to crash the parsers (20000-deep nesting in .glyphs / designspace <lib> / UFO plist; non-numeric unicode and node strings in .glyphs); "
+         "net translation, flatten / decompose / prefer-simple flags, missing component), acyclic component chains of 300 / 1500 / 3000 glyphs (nesting depth), the master-less glyphs2/Unicode-UnquotedHex.glyphs as it is, 8 text mutants of real .glyphs sources with component cycles, 3 FEA include graphs (self include, 2-cycle, chain of 60) and 6 inputs known to crash the parsers (20000-deep nesting in .glyphs / designspace <lib> / UFO plist; non-numeric unicode and node strings in .glyphs); "
          "(A, 55%) random UFO component graphs of 3..6 glyphs (0..2 contours, 0..2 translated components, 80% exported) with one "
          "structural mutation (cycle of length 1..4 with zero or non-zero net translation, mixed or non-export member, missing "
          "reference, duplicate component, mixed glyph) and one of five flag sets, outcome class compared with Model.exec; "
@@ -41,4 +41,9 @@ PROP = dict(
                  "propagate-anchors runs are compared with the model under default flags (that walk is guarded by a visited set)",
                  "in repaired mode (probe: the canonical 2-cycle is rejected with a 'component cycle' error) the model's entry "
                  "check is switched on for every graph case of the run"],
+)
+
+MANIFEST = dict(
+    text="Coq model of every component-graph walk (depth sort, nested location collection, resolve_inconsistencies re-queue loop, flatten, convert-to-contours with its transform-keyed visited set, composite bbox work list, composite limits) and of the GlyphOrder pipeline on arbitrary, possibly cyclic, finite graphs, with fuel standing for loop iterations / recursion depth. Theorems: guarded walks terminate on every graph; unguarded walks terminate on closed acyclic graphs with explicit bounds and diverge (for every fuel) on cycles; acyclic <-> no cycle; the entry check rejects exactly the cyclic graphs before any unguarded walk runs (cycle_rejected_before_walks); the repaired compile never diverges on any store and any flags (fixed_compile_never_diverges) and is transparent on acyclic input. Tied to the code on every run: the real fontc CLI (rebuilt from the working tree) under time/memory limits on component-graph mutants compared with the model's outcome, plus structural and byte mutations, token soup and nesting bombs of UFO/designspace/.glyphs sources with the outcome predicate {font, error} vs {signal, timeout, panic, bogus font}.",
+    note='Trusted: Coq kernel + vm_compute; hand-written single-master, translation-only model and its correspondence run; the CLI subprocess runner (ulimit/timeout); Rust harness. No axioms. Partial: parser resource use (plist/XML/FEA) and the real stack limit are only exercised; six defects repaired in /repo, two known findings (external plist/norad deserialiser).',
 )
